@@ -20,6 +20,8 @@ What the parser does with the *payloads* follows what was measured on Qt 5.15.8'
     run is tested *after* entity decoding (`<a>&#32;</a>` has no child);
   - `]]>` in text, a bare `&`, `<` in an attribute value and the non-characters U+FFFE/U+FFFF
     are errors; control characters are accepted; `>` is accepted in text and values.
+  - namespace declarations are ordinary attributes for the parser; the WRITER puts their value out
+    unescaped (`renderAttrs` in Tree.lean), which is why `nsValuesOK` exists.
 Names are XML 1.0 names restricted to ASCII (`:` is an ordinary name character at this layer;
 `qdomView` models what namespace processing does with prefixes and `xmlns` attributes).
 
@@ -255,6 +257,29 @@ mutual
       match k with
       | .text s => viewKids (p ++ s.filter legalChar) ks
       | .elem .. => flushText p ++ view k :: viewKids [] ks
+end
+
+mutual
+  /-- the tree with every character the writer drops removed from text and attribute values -/
+  def legalize : Node → Node
+    | .text s => .text (s.filter legalChar)
+    | .elem n as ks => .elem n (as.map fun kv => (kv.1, kv.2.filter legalChar)) (legalizeList ks)
+  def legalizeList : List Node → List Node
+    | [] => []
+    | k :: ks => legalize k :: legalizeList ks
+end
+
+mutual
+  /-- blank text nodes removed at every level (what QDom does to white-space-only character data) -/
+  def dropBlank : Node → Node
+    | .text s => .text s
+    | .elem n as ks => .elem n as (dropBlankList ks)
+  def dropBlankList : List Node → List Node
+    | [] => []
+    | k :: ks =>
+      match k with
+      | .text s => if blank s then dropBlankList ks else .text s :: dropBlankList ks
+      | .elem .. => dropBlank k :: dropBlankList ks
 end
 
 mutual
